@@ -56,7 +56,10 @@ P2 == NonZero(Lattice(3, K2))            \* every representative, incl. non-prim
 P3 == Classes(4, K3)
 L3 == Lines3(K3)
 
-Pool(kind, dim) == IF kind = "line3" THEN L3 ELSE IF dim = 2 THEN P2 ELSE P3
+\* the zero vector represents nothing; as an argument it is a dependent input (C02 names it), so it is part of every pool of
+\* points, lines of the plane and planes (never of the round trips, whose pools are class representatives)
+ZeroArg(dim) == [i \in 1..(dim + 1) |-> 0]
+Pool(kind, dim) == IF kind = "line3" THEN L3 ELSE (IF dim = 2 THEN P2 ELSE P3) \cup {ZeroArg(dim)}
 \* first-argument pool of a family (strided for the big families; class representatives for round trips)
 Pool1(f) == LET t == FamilyTable[f] IN
   IF IsRT(f) THEN (IF t.kinds[1] = "line3" THEN {x \in L3 : Keep(x, StrideLL)}
